@@ -283,14 +283,47 @@ def instrument_fn(ftext, fspec, ed, base, rules, label):
             if want_n >= len(calls_):
                 raise Undecided("%s: lost anchor: call %s #%d not found (fn has %d)" % (label, m.group(1), want_n, len(calls_)))
             qc = calls_[want_n]
+            # innermost enclosing block; if the call sits in a match-arm expression (`PAT => EXPR,`: a top-level `=>`
+            # between the start of the containing "statement" and the call), the arm expression is wrapped in braces
+            # with the inserted text first -- `PAT => { TEXT EXPR },` -- an insertion-only edit
             blk_open = max(q0 for q0 in range(an.body_open, qc) if rsx.is_p(st[q0], "{") and rsx.match_close(st, q0) > qc)
-            hit = None
-            for (s0, s1, _t) in an.statements(blk_open, rsx.match_close(st, blk_open)):
+            blk_close = rsx.match_close(st, blk_open)
+            cand = None
+            for (s0, s1, _t) in an.statements(blk_open, blk_close):
                 if s0 <= qc <= s1:
-                    hit = s0
-            if hit is None:
+                    cand = s0
+            if cand is None:
                 raise Undecided("%s: lost anchor: statement of call %s #%d" % (label, m.group(1), want_n))
-            ed.insert(base + st[hit].start, take(key) + "\n")
+            depth_ = 0
+            arrow = None
+            for q1 in range(cand, qc):
+                if st[q1].kind == "punct" and st[q1].text in rsx.OPEN:
+                    depth_ += 1
+                elif st[q1].kind == "punct" and st[q1].text in rsx.CLOSE:
+                    depth_ -= 1
+                elif depth_ == 0 and rsx.is_p(st[q1], "=") and rsx.is_p(st[q1 + 1], ">") and st[q1 + 1].start == st[q1].end:
+                    arrow = q1
+            if arrow is None:
+                ed.insert(base + st[cand].start, take(key) + "\n")
+                continue
+            e0 = arrow + 2
+            depth_ = 0
+            e1 = None
+            for q1 in range(e0, blk_close + 1):
+                if st[q1].kind == "punct" and st[q1].text in rsx.OPEN:
+                    depth_ += 1
+                elif st[q1].kind == "punct" and st[q1].text in rsx.CLOSE:
+                    if depth_ == 0:
+                        e1 = q1
+                        break
+                    depth_ -= 1
+                elif depth_ == 0 and rsx.is_p(st[q1], ","):
+                    e1 = q1
+                    break
+            if e1 is None or e1 <= qc:
+                raise Undecided("%s: lost anchor: arm expression of call %s #%d" % (label, m.group(1), want_n))
+            ed.insert(base + st[e0].start, "{ " + take(key) + "\n")
+            ed.insert(base + st[e1].start, " }")
             continue
         m = re.match(r"(?:loop (\d+) )?before_call (\w+)(?: (\d+))?$", key)
         if m:
@@ -361,11 +394,13 @@ def instrument_fn(ftext, fspec, ed, base, rules, label):
             ed.insert(base + st[b0].start, take(key).strip() + " { ")
             ed.insert(base + st[b1].end, " }")
             continue
-        m = re.match(r"(return|break) (\d+)$", key)
+        m = re.match(r"(return|break) (-?\d+)$", key)
         if m:
-            k = int(m.group(2))
+            k = int(m.group(2))     # negative: counted from the last one
             rets = an.returns() if m.group(1) == "return" else [i for i in range(an.body_open + 1, an.body_close) if rsx.is_id(st[i], "break")]
-            if k >= len(rets):
+            if k < 0:
+                k += len(rets)
+            if k < 0 or k >= len(rets):
                 raise Undecided("%s: %s %d not found (fn has %d)" % (label, m.group(1), k, len(rets)))
             r = rets[k]
             txt = take(key)
